@@ -939,13 +939,17 @@ class SyncInterpreter(BaseInterpreter[TContext, TEvent]):
                         self._execute_builtin_action(
                             canonical, action_def, event
                         )
-                    except Exception:
+                    except Exception as exc:
                         logger.exception(
                             "🔥 Built-in action '%s' raised while handling "
                             "'%s'; skipping remaining actions.",
                             action_def.type,
                             event.type,
                         )
+                        # 🔔 Same notification a failing user action gets —
+                        #    the async engine already sends it.
+                        for plugin in self._plugins:
+                            plugin.on_action_error(self, action_def, exc)
                         return
                     continue
 
